@@ -312,6 +312,9 @@ func (n *L2) initChain(gen *L2Genesis) {
 			addr, _ := sdk.AccAddressFromBech32(a)
 			accs = append(accs, authtypes.NewBaseAccount(addr, nil, uint64(i), 0))
 		}
+		// the native gas token has bank metadata, as on any real chain
+		bg.DenomMetadata = append(bg.DenomMetadata, banktypes.Metadata{Base: "umin", Display: "min", Symbol: "MIN", Name: "min token",
+			DenomUnits: []*banktypes.DenomUnit{{Denom: "umin", Exponent: 0}, {Denom: "min", Exponent: 6}}})
 		packed, err := authtypes.PackAccounts(accs)
 		if err != nil {
 			panic(err)
